@@ -812,6 +812,10 @@ func genC07(r *Rng, e *Emitter, n int) {
 				if err != nil {
 					return sxGeoErr(err)
 				}
+				// the Geometry value is the caller's and can be decoded (and marshalled) again
+				if g4, err := gg.Decode(); err != nil || sxRaw(g4) != sxRaw(g3) {
+					return "(err second-decode-differs)"
+				}
 				return "(ok " + sxRaw(g3) + ")"
 			})
 			e.tally("geom/" + t.kind + "/" + fmt.Sprint(int(t.layout)))
